@@ -75,6 +75,8 @@ Inductive op :=
 | Adv (d : Q)               (* stack.stamper.advance(d) *)
 | Proc                      (* exchange.process() *)
 | Send (m : option Z)       (* exchange.send(m) *)
+| Transmit (m : option Z)   (* exchange.transmit(m): records m as .tx (if given), queues .tx on the stack *)
+| Message (m : option Z)    (* exchange.message(m): same through stack.message *)
 | Start (m : option Z)      (* Exchanger.start(m): prepStart, both timers restart, send(m) *)
 | Finish.                   (* exchange.finish() *)
 
@@ -86,6 +88,11 @@ Definition x_step (x : exch) (stamp : Q) (o : op) : exch * Q * obs :=
   | Adv d => (x, qadd stamp d, ([], x_done x, x_failed x, false))
   | Proc => let '(x', s) := x_process x stamp in (x', stamp, (s, x_done x', x_failed x', false))
   | Send m =>
+      match x_send x m with
+      | Some (x', s) => (x', stamp, (s, x_done x', x_failed x', false))
+      | None => (x, stamp, ([], x_done x, x_failed x, true))
+      end
+  | Transmit m | Message m =>     (* same effect as send: the given message becomes the latest .tx *)
       match x_send x m with
       | Some (x', s) => (x', stamp, (s, x_done x', x_failed x', false))
       | None => (x, stamp, ([], x_done x, x_failed x, true))
